@@ -172,33 +172,6 @@ Proof. exact (@glue_step_order). Qed.
 Print Assumptions C11_tie_step_order.
 
 Theorem C11_tie_expire_dataflow :
-  p_expire.p_expire =
-       ["EuclideanCodebook.replace:sampled = self.replace_sample_fn(rearrange(samples, '... -> 1 ...'), mask.sum().item())";
-        "EuclideanCodebook.replace:sampled = rearrange(sampled, '1 ... -> ...')";
-        "EuclideanCodebook.replace:self.embed.data[ind][mask] = sampled";
-        "EuclideanCodebook.replace:self.cluster_size.data[ind][mask] = self.reset_cluster_size";
-        "EuclideanCodebook.replace:self.embed_avg.data[ind][mask] = sampled * self.reset_cluster_size";
-        "EuclideanCodebook.replace.loop:enumerate(zip(batch_samples, batch_mask))";
-        "EuclideanCodebook.pool:rearrange(batch_samples, 'h ... d -> h (...) d')";
-        "EuclideanCodebook.reset:default(reset_cluster_size, threshold_ema_dead_code)";
-        "EuclideanCodebook.call:self.replace(batch_samples, batch_mask=expired_codes)";
-        "CosineSimCodebook.replace:batch_samples = l2norm(batch_samples)";
-        "CosineSimCodebook.replace:sampled = self.replace_sample_fn(rearrange(samples, '... -> 1 ...'), mask.sum().item())";
-        "CosineSimCodebook.replace:sampled = rearrange(sampled, '1 ... -> ...')";
-        "CosineSimCodebook.replace:self.embed.data[ind][mask] = sampled";
-        "CosineSimCodebook.replace:self.embed_avg.data[ind][mask] = sampled * self.reset_cluster_size";
-        "CosineSimCodebook.replace:self.cluster_size.data[ind][mask] = self.reset_cluster_size";
-        "CosineSimCodebook.replace.loop:enumerate(zip(batch_samples, batch_mask))";
-        "CosineSimCodebook.pool:rearrange(batch_samples, 'h ... d -> h (...) d')";
-        "CosineSimCodebook.reset:default(reset_cluster_size, threshold_ema_dead_code)";
-        "CosineSimCodebook.call:self.replace(batch_samples, batch_mask=expired_codes)";
-        "sample_vectors.if:num_samples >= num";
-        "sample_vectors.indices:torch.randperm(num_samples, device=device)[:num]";
-        "sample_vectors.indices:torch.randint(0, num_samples, (num,), device=device)";
-        "sample_vectors.return:samples[indices]"; "vq.expire:x = self._codebook.transform_input(x)";
-        "vq.expire:x = self.maybe_split_heads_from_input(x)"; "vq.expire:self._codebook.expire_codes_(x)";
-        "rvq.shared_expire:shared_layer.expire_codes_(torch.cat(all_residuals, dim=-2))";
-        "rvq.all_residuals:all_residuals.append(residual)"].
+  p_expire.p_expire = pinned_p_expire.
 Proof. exact (@pin_p_expire). Qed.
 Print Assumptions C11_tie_expire_dataflow.
-
